@@ -65,6 +65,34 @@ type Scenario struct {
 	BlankImports []string
 	// OutFile: module-relative path of the generated file when it is not the default of the format
 	OutFile string
+	// Present: the declaration lives in a file of its own (conv/p_<ID>.go) that imports the type packages under other
+	// names; the custom functions stay in conv.go. Nothing observable may depend on this presentation.
+	Present bool
+}
+
+var presentRenames = []struct {
+	re *regexp.Regexp
+	to string
+}{
+	{regexp.MustCompile(`(^|[^.\w])in\.`), "${1}src."},
+	{regexp.MustCompile(`(^|[^.\w])out\.`), "${1}dst."},
+	{regexp.MustCompile(`(^|[^.\w])third\.`), "${1}trd."},
+}
+
+const presentHeader = "package conv\n\nimport (\n\t\"fmt\"\n\t\"unsafe\"\n\n\tsrc \"vx/in\"\n\tdst \"vx/out\"\n\ttrd \"vx/third\"\n)\n\nvar (\n\t_ unsafe.Pointer\n\t_ src.MyInt\n\t_ dst.MyInt\n\t_ trd.ID3\n\t_ = fmt.Sprint\n)\n\n"
+
+// presentSource is the declaration as written in its own file: package qualifiers of the signatures follow the renamed imports.
+func (sc *Scenario) presentSource() string {
+	var out []string
+	for _, l := range strings.Split(sc.ifaceSource(), "\n") {
+		if !strings.HasPrefix(strings.TrimSpace(l), "//") {
+			for _, r := range presentRenames {
+				l = r.re.ReplaceAllString(l, r.to)
+			}
+		}
+		out = append(out, l)
+	}
+	return presentHeader + strings.Join(out, "\n")
 }
 
 func (sc *Scenario) ifaceSource() string {
@@ -190,7 +218,11 @@ func fillScenarioModule(mod *emit.Module, scs []*Scenario) {
 	var b strings.Builder
 	b.WriteString(convHeaderWith(scenarioImports(scs)))
 	for _, sc := range scs {
-		b.WriteString(sc.ifaceSource())
+		if sc.Present {
+			mod.Add("conv/p_"+strings.ToLower(sc.ID)+".go", sc.presentSource())
+		} else {
+			b.WriteString(sc.ifaceSource())
+		}
 		b.WriteString("\n")
 		b.WriteString(sc.FuncsSrc)
 		b.WriteString("\n")
@@ -515,6 +547,9 @@ func reformat(sc *Scenario, format string) *Scenario {
 	if format == "variables" && sc.SeparateOutputOnly {
 		return nil
 	}
+	if format == "present" && len(sc.Imports) > 0 {
+		return nil
+	}
 	if format == "variables-moved" && (sc.OutFile != "" || hasOutputLine(sc.ConvLines)) {
 		return nil
 	}
@@ -547,7 +582,7 @@ func reformat(sc *Scenario, format string) *Scenario {
 			}
 		}
 	}
-	newID := sc.ID + map[string]string{"function": "F", "variables": "V", "variables-moved": "M", "reordered": "O", "noise": "N"}[format]
+	newID := sc.ID + map[string]string{"function": "F", "variables": "V", "variables-moved": "M", "reordered": "O", "noise": "N", "present": "P"}[format]
 	ren := func(name string) string { return name + "X" + newID } // carries the case id for compile-error attribution
 	if format == "reordered" {
 		// struct format; every method but the tested one gets a name that sorts before it (methods are processed in
@@ -594,10 +629,15 @@ func reformat(sc *Scenario, format string) *Scenario {
 		n.ID = sc.ID + "V"
 		n.Variables = true
 		conv.OutPkg = "conv"
+	case "present":
+		n.ID = sc.ID + "P"
+		n.Present = true
 	case "noise":
 		n.ID = sc.ID + "N"
 		n.ConvLines = append([]string{"update:ignoreZeroValueField", "default:update"}, n.ConvLines...)
-		noise := func(st *model.Settings) { st.ZeroBasic, st.ZeroStruct, st.ZeroNillable, st.DefaultUpdate = true, true, true, true }
+		noise := func(st *model.Settings) {
+			st.ZeroBasic, st.ZeroStruct, st.ZeroNillable, st.DefaultUpdate = true, true, true, true
+		}
 		noise(&conv.Set)
 		for _, m := range conv.Methods {
 			noise(&m.Set)
